@@ -2,6 +2,7 @@ package exec
 
 import (
 	"context"
+	"fmt"
 
 	"github.com/theory/sqljson/path/ast"
 )
@@ -82,6 +83,14 @@ func (exec *Executor) executePredicate(
 	for _, lVal := range lSeq.list {
 		// Loop over right arg sequence.
 		for _, rVal := range rSeq.list {
+			// Check for interrupts: the pairs of two long sequences are many
+			// evaluation steps without any other check in between.
+			select {
+			case <-ctx.Done():
+				return predUnknown, fmt.Errorf("%w: %w", ErrExecution, ctx.Err())
+			default:
+			}
+
 			res, err := callback(ctx, pred, lVal, rVal)
 			if err != nil {
 				return predUnknown, err
